@@ -168,7 +168,7 @@ reg("C07", harness="c07_stream", level="model_checking", deadline=(500, 2400), e
                "Longer streams (up to >64 KiB output) are covered by the closure of all single split points and all uniform chunk-size pairs.",
     level_note="chunk sizes outside the alphabets and histories on long streams beyond single-split/uniform are not covered; flush budget <=1 (2) "
                "and <=2 consecutive empty calls bound the deflate graph; a graph that hits its state cap is reported (exhaustive:false).",
-    runs=[dict(flavour="sim", part="inflate"), dict(flavour="sim", part="deflate")],
+    runs=[dict(flavour="sim", part="inflate"), dict(flavour="sim", part="deflate"), dict(flavour="sim", part="deflate-layers")],
     rule="state = normalised image of inflate_state / isal_zstream+level_buf + cursor; transition = one real API call under one environment "
          "choice; traces_validated_against_impl = root-to-terminal paths (all are implementation executions); distinct_nontrivial = graphs and "
          "stream/cpu combinations completed.")
